@@ -274,13 +274,18 @@ CONFUSABLE = ["bin", "txt", "bas", "BAS", "Bin", "TXT", "auto", "bat", "AUTO", "
               # leading and inner blanks are ordinary name characters (trailing ones are indistinguishable from the field padding: not generated)
               " a.txt", "  b.dat", "a b.bas", " a. b",
               # the base name starts with the dot: empty catalog name, the rest is the extension
-              ".bas", ".x", ".ab"]
+              ".bas", ".x", ".ab",
+              # more than one dot: the catalog name is everything before the LAST dot of the base name; an inner comma is an ordinary
+              # character (only a final ",a" is an option)
+              "prog.v2.bas", "lib.v1.bin", "lib.v2.bin", "a..b", "x.1.2", "a.b.bas,a", "v1.0.txt", "demo,v2.bas,a", "a,b.txt", "x,a.bas", "n,a.bas,A"]
+# a base name that starts with '-' is an ordinary source once a bare "--" ends the options (Scenario.run spells the command so)
+DASHED = ["-draft.bas", "-x", "--y.dat", "-v", "-c.bin"]
 
 
-def gen_disk_name(rng, used):
+def gen_disk_name(rng, used, dashed=False):
     for _ in range(200):
-        if rng.random() < 0.18:
-            full = rng.choice(CONFUSABLE)
+        if rng.random() < 0.2:
+            full = rng.choice(DASHED if dashed and rng.random() < 0.15 else CONFUSABLE)
             key = T.catalog_name(full)
             if key not in used:
                 used.add(key)
